@@ -29,6 +29,7 @@ def run(ctx):
     # preemption-bounded systematic search (every schedule with <= 1 preemption, yields before and after each operation)
     searches = [(p, 1, 250 if ctx.quick else 6000, {"post_yields": True}) for p in progs[: 6 if ctx.quick else 14]]
     cferr = gc.chanfile_error_part(ctx, rng)
+    cbend = gc.cbend_part(ctx)
     multi = gc.multi_part(ctx, ["C07."])
     jobs += gc.jobs_for([p for p in progs if len(p["threads"]) == 1], 6 if ctx.quick else 40, 2, ctx.seed + 1, [{"post_yields": True, "worker_backend": "main_thread_only"}])
     res = gc.run_and_judge(ctx, jobs, ["C07.", "C14.false-deadlock", "C10.endmarker-missing"], lambda evs: any(e["ev"] == "fin" and e["op"] == "6" for e in evs), (lambda r, vd: {"C07.remote-error-swallowed-after-last-message": "error-after-last-message", "C07.callback-error-during-setcallback-drain-not-reported": "callback-raises-during-setcallback-drain"}.get(vd)), searches=searches)
@@ -45,5 +46,6 @@ def run(ctx):
     })
     ctx.coverage["channel_file_errors"] = cferr
     ctx.coverage["multichannel_real"] = multi
+    ctx.coverage["endmarker_callback_raises"] = cbend
     ctx.assumptions += gc.ASSUMPTIONS
     return "model_checking"
